@@ -131,7 +131,11 @@ func triggerObjectScenario(r *Run) {
 		}
 		steps++
 		if sb.Draw(4) == 0 {
-			wm += 1 + sb.Draw(3)
+			if wm > 0 && sb.Draw(4) == 0 {
+				// the same watermark again (watermarks are non-decreasing, not strictly increasing)
+			} else {
+				wm += 1 + sb.Draw(3)
+			}
 			trig.WatermarkReceived(T(wm))
 			model.watermark = T(wm)
 			hist.WriteString(fmt.Sprintf("wm(%d) ", wm))
